@@ -270,6 +270,11 @@ class Sim:
             self.suspend_from, self.suspend_until = t_from, t_to
         self.net.at(t_from, arm)
 
+    def burn(self, dt: float) -> None:
+        """Called from inside an application callback: the callback takes dt seconds (a blocking call, a slow computation).  The loop's clock and
+        the process's monotonic clocks move; the world goes on meanwhile and is seen when the callback returns."""
+        self.clock += dt
+
     def small_step(self, dt: float = 1e-4) -> bool:
         """One event-loop iteration during which virtual time advances by at most dt (step() alone jumps to the next timer, e.g. the keepalive)."""
         self.net.at(self.clock + dt, lambda: None)
